@@ -279,3 +279,54 @@ func H_C20_close_concurrent_with_next() {
 		vpAssert(got <= w.nBatches*w.rowsPer, "C20: Next returned more rows than were matched")
 	}
 }
+
+// ---- context package models (harness Go, used by the executor in place of the library code) ----
+
+// context.WithCancel: a child of a harness context tree is cancelled synchronously with its
+// parent (what the context package does for its own context types); under any other parent with a
+// Done channel a propagation goroutine is started (what the context package does for foreign
+// Context implementations); Background/TODO parents never cancel.
+func vpModel_context_WithCancel(parent context.Context) (context.Context, context.CancelFunc) {
+	var c *vpCtxNode
+	if p, ok := parent.(*vpCtxNode); ok {
+		c = vpNewCtx(p)
+	} else {
+		c = vpNewCtx(nil)
+		if pd := parent.Done(); pd != nil {
+			go func() {
+				select {
+				case <-pd:
+					c.cancelWith(parent.Err())
+				case <-c.done:
+				}
+			}()
+		}
+	}
+	return c, func() { c.cancelWith(context.Canceled) }
+}
+
+// context.AfterFunc: f runs in its own goroutine some time after ctx is done (for a context that
+// implements AfterFunc itself, that implementation decides when — possibly late).
+func vpModel_context_AfterFunc(ctx context.Context, f func()) func() bool {
+	if a, ok := ctx.(interface{ AfterFunc(func()) func() bool }); ok {
+		return a.AfterFunc(f)
+	}
+	stopped := make(chan struct{})
+	var once sync.Once
+	go func() {
+		select {
+		case <-ctx.Done():
+			ran := false
+			once.Do(func() { ran = true })
+			if ran {
+				f()
+			}
+		case <-stopped:
+		}
+	}()
+	return func() bool {
+		did := false
+		once.Do(func() { did = true; close(stopped) })
+		return did
+	}
+}
